@@ -1,7 +1,9 @@
 package ceremony
 
 import (
+	"github.com/idena-network/idena-go/common"
 	"github.com/idena-network/idena-go/core/state"
+	"github.com/idena-network/idena-go/database"
 )
 
 func vIsValidatedStatus(s state.IdentityState) bool {
@@ -72,5 +74,81 @@ func H_C17a() {
 		vAssert(id.State == state.Verified || id.State == state.Human || id.State == state.Suspended && !up10 && !missed, "Suspended only from Verified/Human (or legacy hold)")
 	}
 	// NaN scores never validate anyone who needs a score
+	vCover("end")
+}
+
+// ---- C17.d: answers bookkeeping survives a restart ----
+
+var vEpochShort, vEpochLong []database.DbAnswer
+var vEpochWrites int
+
+//verif:override epochdb (*idena-go/database.EpochDb).WriteAnswers vWriteAnswers
+func vWriteAnswers(edb *database.EpochDb, short []database.DbAnswer, long []database.DbAnswer) {
+	vEpochWrites++
+	vEpochShort = append([]database.DbAnswer{}, short...)
+	vEpochLong = append([]database.DbAnswer{}, long...)
+}
+
+//verif:override epochdb (*idena-go/database.EpochDb).ReadAnswers vReadAnswers
+func vReadAnswers(edb *database.EpochDb) (short []database.DbAnswer, long []database.DbAnswer) {
+	return vEpochShort, vEpochLong
+}
+
+func vSameAnswers(a, b map[common.Address][]byte) bool {
+	if len(a) != len(b) {
+		return false
+	}
+	for k, v := range a {
+		w, ok := b[k]
+		if !ok || string(v) != string(w) {
+			return false
+		}
+	}
+	return true
+}
+
+//verif:obligation C17.d tier=quick use=epochdb bounds=2-senders,<=3-events-from-add/remove(short|long)-each-followed-by-persist-as-the-block-and-reset-handlers-do covers=added,removed,firstWins
+// qualification.addAnswers / removeAnswers / persist / restore (real code; EpochDb as an ideal store):
+// answers are first-write-wins, and after every handler step (event + persist) a node restarted from the
+// epoch database holds exactly the answers of the node that kept running - in particular answers of a
+// reverted transaction do not come back after a restart.
+func H_C17d() {
+	vEpochShort, vEpochLong, vEpochWrites = nil, nil, 0
+	q := NewQualification(nil, &database.EpochDb{})
+	var a, b common.Address
+	a[19], b[19] = 1, 2
+	senders := []common.Address{a, b}
+	n := 1 + vChoice("events", 3)
+	for i := 0; i < n; i++ {
+		short := vBool("ev.short")
+		who := senders[vChoice("ev.sender", 2)]
+		m := q.longAnswers
+		if short {
+			m = q.shortAnswers
+		}
+		prev, had := m[who]
+		if vBool("ev.remove") {
+			vCover("removed")
+			q.removeAnswers(short, who) // BlockchainResetEvent handler: a reverted answers transaction
+			_, still := m[who]
+			vAssert(!still, "answers of a reverted transaction are forgotten")
+		} else {
+			vCover("added")
+			payload := []byte{vU8("ev.payload")}
+			q.addAnswers(short, who, payload) // new block with an answers transaction
+			if had {
+				vCover("firstWins")
+				vAssert(string(m[who]) == string(prev), "answers are first-write-wins")
+			} else {
+				vAssert(string(m[who]) == string(payload), "first answers of a sender are recorded")
+			}
+		}
+		q.persist() // both handlers persist right after the change
+		// restart: a fresh qualification restored from the epoch database
+		r := NewQualification(nil, &database.EpochDb{})
+		r.restore()
+		vAssert(vSameAnswers(q.shortAnswers, r.shortAnswers) && vSameAnswers(q.longAnswers, r.longAnswers),
+			"a node restarted after this step holds exactly the answers of the node that kept running")
+	}
 	vCover("end")
 }
